@@ -136,6 +136,9 @@ impl SerializableValue {
 #[derive(Clone, Debug)]
 pub enum SimpleValue {
     Bool(bool),
+    /// Integer number, which is kept separately from `Number` since `f64` cannot represent
+    /// all 64-bit integers.
+    Integer(i64),
     Number(f64),
     String(String, StringKind),
     Cstring(String),
@@ -154,7 +157,7 @@ impl SimpleValue {
         use SimpleValue::*;
         let tag_name = match self {
             Bool(_) => "bool",
-            Number(_) => "number",
+            Integer(_) | Number(_) => "number",
             String { .. } => "string",
             Cstring(_) => "cstring",
             Enum(_) => "enum",
@@ -198,6 +201,7 @@ impl SimpleValue {
 
     pub fn as_number(&self) -> Option<f64> {
         match self {
+            SimpleValue::Integer(x) => Some(*x as f64),
             SimpleValue::Number(x) => Some(*x),
             _ => None,
         }
@@ -223,6 +227,7 @@ impl fmt::Display for SimpleValue {
         use SimpleValue::*;
         match self {
             Bool(b) => write!(f, "{}", if *b { "true" } else { "false" }),
+            Integer(d) => write!(f, "{}", d),
             Number(d) => write!(f, "{}", d),
             String(s, _) | Cstring(s) | Enum(s) | Set(s) | CursorShape(s) | Pixmap(s) => {
                 write!(f, "{}", s)
@@ -235,7 +240,7 @@ impl EvaluatedValue {
     fn unwrap_into_simple_value(self) -> SimpleValue {
         match self {
             EvaluatedValue::Bool(v) => SimpleValue::Bool(v),
-            EvaluatedValue::Integer(v) => SimpleValue::Number(v as f64),
+            EvaluatedValue::Integer(v) => SimpleValue::Integer(v),
             EvaluatedValue::Float(v) => SimpleValue::Number(v),
             EvaluatedValue::String(s, k) => SimpleValue::String(s, k),
             // enum can't be mapped to SimpleValue without type information
